@@ -214,6 +214,20 @@ Proof.
     destruct o as [o| | |]; [destruct o|..]; discriminate.
 Qed.
 
+(* ---- Reset from ANY state (a reader handed out and read in part, or not; reachable or not): the
+   session goes on as that of a new scanner on the input of the Reset ---- *)
+Lemma reset_fresh src x ops :
+  run_ext src x (EOp XReset :: ops) = EROut XRReset :: run_ext src (new_ext src) ops.
+Proof. rewrite run_ext_cons. cbn [step_ext stepx]. rewrite reset_sc_hand. reflexivity. Qed.
+
+Theorem session_ext_reuse s2 x ops :
+  exists outs, run_ext s2 x (EOp XReset :: ops) = EROut XRReset :: outs /\
+               session_ok_ext s2 ops outs = true /\ ~ In (EROut XRPanic) outs.
+Proof.
+  exists (run_ext s2 (new_ext s2) ops). split; [apply reset_fresh|].
+  split; [apply session_ext_ref|apply session_ext_no_panic].
+Qed.
+
 (* the state a session leaves is the one its calls lead to: run_ext_st's second component is the
    iteration of step_ext (used by the driver for M lines: Reset onto a second input) *)
 Lemma run_ext_st_cons src x op ops :
